@@ -1,56 +1,54 @@
-(* C06, forward simulation, part 8: programs of the CLOSURE fragment - integers and closures without
+(* C07, forward simulation, part 7: programs of the CLOSURE fragment - integers and closures without
    captured variables: Substitute / Call / Literal / Op / PrintI64 / IfC / Exit as in the integer fragment,
    plus `create v : T = (){…}` and `invoke v D`.  This covers the programs the pipeline produces for
    first-order tail-recursive integer functions (the return continuation passed to every call is such a
-   closure).  `sim_exec_cf` is the induction of Proof/X86SimProg.v with the two new statements, the relation
-   instantiated with `clo_ok` (Proof/X86SimClo.v). *)
+   closure).  `sim_exec_cf` is the induction of Proof/A64SimProg.v with the two new statements, the relation
+   instantiated with `clo_ok` (Proof/A64SimClo.v).  Port of Proof/X86SimProgC.v. *)
 From Coq Require Import List ZArith NArith String Bool Lia FMapPositive.
-From SCC Require Import Base.Sexp Lang.AxSyn Sem.AxSem Model.ParMoves Model.Backend Model.X86 Sem.X86Sem Sem.X86Wf
+From SCC Require Import Base.Sexp Lang.AxSyn Sem.AxSem Model.ParMoves Model.Backend Model.A64 Sem.A64Sem
      Model.Linearize Model.LinCheck Generated.Constants Proof.LinBasics
-     Proof.X86State Proof.X86Sel Proof.X86Exec Proof.X86ParMoves Proof.SubstGraph Proof.X86Subst
-     Proof.X86SimRel Proof.X86SimStmt Proof.X86SimPrint Proof.X86SimAddr Proof.X86SimClo Proof.X86SimProg.
+     Proof.A64State Proof.A64ImmHw Proof.A64Imm Proof.A64Sel Proof.A64PM Proof.A64Exec
+     Proof.A64MemSubst Proof.SubstGraph Proof.SubstBackends Proof.A64Subst Proof.A64Wf Proof.A64Print
+     Proof.A64SimRel Proof.A64SimStmt Proof.A64SimAddr Proof.A64SimClo Proof.A64SimProg.
 Import ListNotations.
 Open Scope Z_scope.
 Open Scope list_scope.
-(* names that lived in this file before they moved to Proof/SimFrag.v (kept for qualified uses) *)
-Notation def_cf := SimFrag.def_cf (only parsing).
-Notation cf_frag := SimFrag.cf_frag (only parsing).
-Notation plain_types := SimFrag.plain_types (only parsing).
-
-(* def_cf, cf_frag, plain_types: Proof/SimFrag.v *)
 
 Section MainCf.
 Variable im : image.
 Variable p : prog.
 Variable sp : Z.
+Variable st0 : PM.t Z.
 Hypothesis IMG : img_ok im.
 Hypothesis SMALL : forall pc a, PM.find pc (addr_of im) = Some a -> a < 4611686018427387904.
-Hypothesis ENC : forall pc c, PM.find pc (code im) = Some c -> instr_wf c = true.
-Hypothesis PLT : forall d, In d (ptypes p) -> is_hash_label (label_of_type_name (show_ident (tname d))) = false.
+Hypothesis PLT : forall d, In d (ptypes p) -> hash_name (label_of_type_name (show_ident (tname d))) = false.
 Notation CLO := (clo_ok im p).
 Local Notation rel := (rel CLO).
+Local Notation outer_ok := (outer_ok st0 sp).
 Hypothesis DEFS : forall d, In d (pdefs p) ->
   exists pcd lcd cd lcd', find_label (labels im) (show_ident (dname d) +++ "_") = Some pcd /\
     PM.find pcd (code im) = Some (LAB (show_ident (dname d) +++ "_")) /\
-    xcs (ptypes p) (dbody d) (dctx d) lcd = Ok (cd, lcd') /\
+    acs (ptypes p) (dbody d) (dctx d) lcd = Ok (cd, lcd') /\
     code_at im (Pos.succ pcd) cd /\ labels_at_nh im (Pos.succ pcd) cd.
-Hypothesis CLEAN : exists pcc, find_label (labels im) "cleanup" = Some pcc /\ code_at im pcc cleanup.
+Hypothesis CLEAN : exists pcc, find_label (labels im) "cleanup" = Some pcc /\
+  forall s z, frame_ok s sp -> outer_ok s -> rget s RETURN1 = Some z -> finishes im pcc s (finish (out s) (OExit z)).
 Hypothesis LIN : forall d, In d (pdefs p) -> lin_check (sigs_of p) (dctx d) (dbody d) = true.
 Hypothesis INT : forall d, In d (pdefs p) -> stmt_cf (dbody d) = true.
+Hypothesis LITS : forall d, In d (pdefs p) -> stmt_lits (dbody d) = true.
 
 Lemma sim_exec_cf : forall fuel s c e ot st pc code lc lc',
-  stmt_cf s = true -> lin_check (sigs_of p) c s = true ->
-  xcs (ptypes p) s c lc = Ok (code, lc') -> code_at im pc code -> labels_at_nh im pc code ->
-  rel c e st sp -> outer_ok st sp -> out st = ot ->
+  stmt_cf s = true -> stmt_lits s = true -> lin_check (sigs_of p) c s = true ->
+  acs (ptypes p) s c lc = Ok (code, lc') -> code_at im pc code -> labels_at_nh im pc code ->
+  rel c e st sp -> outer_ok st -> out st = ot ->
   not_oof (exec_linear fuel p e s ot) -> finishes im pc st (exec_linear fuel p e s ot).
 Proof.
-  induction fuel as [|fuel IH]; intros s c e ot st pc code lc lc' SI LC CS CA LA R OK OUT G.
+  induction fuel as [|fuel IH]; intros s c e ot st pc code lc lc' SI SL LC CS CA LA R OK OUT G.
   { exfalso. apply G. reflexivity. }
   pose proof (rel_frame R) as F. pose proof (proj2 F) as SPOK.
   destruct s as [re next|label args|v t tag args next|v t cls|v t env cls next|v tag t args|n v next|a op b v next|nl v next|so a b thenc elsec|v];
     try (cbn [stmt_cf] in SI; discriminate); cbn [exec_linear] in G |- *.
   - (* Substitute *)
-    cbn [stmt_cf] in SI. apply andb_true_iff in SI as [SI1 SI2].
+    cbn [stmt_cf] in SI. apply andb_true_iff in SI as [SI1 SI2]. cbn [stmt_lits] in SL.
     cbn [lin_check] in LC. apply andb_true_iff in LC as [_ LC]. apply andb_true_iff in LC as [LCs LC].
     destruct (lookups_total e (map snd re)) as (vs & LK & LV).
     { intros x Hx. apply in_map_iff in Hx as (q & <- & Hq). rewrite forallb_forall in LCs. eapply (has_lookup_id CLO); eauto. }
@@ -79,11 +77,11 @@ Proof.
     eapply exec_to_finishes.
     { eapply exec_jump; [exact CJ|cbn [step]; unfold goto_label; rewrite FL; reflexivity|].
       eapply exec_next; [exact CLb|reflexivity|apply exec_refl]. }
-    specialize (INT d IN).
     eapply (IH (dbody d) (dctx d) e' ot st); eauto.
     eapply bind_rel; eauto. exact (lin_nodup _ _ _ (LIN d IN)).
   - (* Create *)
     destruct (stmt_cf_create v t env cls next SI) as (-> & NE & CFc & CFn).
+    destruct (stmt_lits_create v t (Some []) cls next SL) as (SLc & SLn).
     rewrite lin_check_create in LC. apply andb_true_iff in LC as [_ LC].
     cbn [List.length] in LC. unfold split_lastn in LC. cbn [Nat.leb] in LC. rewrite Nat.sub_0_r, firstn_all, skipn_all in LC.
     apply andb_true_iff in LC as [LC LCn]. apply andb_true_iff in LC as [LC LCc]. apply andb_true_iff in LC as [_ CO].
@@ -92,41 +90,44 @@ Proof.
     destruct TN as (tn & ->).
     cbn [ty_name List.length] in G |- *. unfold AxSem.split_last in G |- *. cbn [Nat.leb] in G |- *.
     rewrite Nat.sub_0_r, firstn_all, skipn_all in G |- *. cbn [env_ids map ids ids_eqb vars bind] in G |- *.
-    assert (NHL : is_hash_label (type_label (Decl tn) (lc + 1)%N) = false).
-    { unfold type_label. cbn [show_ty]. apply nh_sub_label.
+    assert (NHL : hash_name (type_label (Decl tn) (lc + 1)%N) = false).
+    { unfold type_label. cbn [show_ty]. apply hash_name_sub.
       unfold cls_ok, type_xtors in CO. cbn [sigs_of sg_types] in CO.
       destruct (find (fun d => ident_eqb (tname d) tn) (ptypes p)) as [d|] eqn:FD; [|discriminate].
       apply find_some in FD as [IN EQ]. apply ident_eqb_eq in EQ. subst tn. exact (PLT d IN). }
-    assert (STAT : forall cl, In cl cls -> lin_check (sigs_of p) (cl_ctx cl) (cl_body cl) = true /\ stmt_cf (cl_body cl) = true /\ ctx_cf (cl_ctx cl) = true).
+    assert (STAT : forall cl, In cl cls -> clause_static p cl).
     { intros cl Hcl. unfold lin_clauses_cr in LCc. rewrite forallb_forall in LCc. specialize (LCc cl Hcl). rewrite app_nil_r in LCc.
-      unfold clauses_cf in CFc. rewrite forallb_forall in CFc. specialize (CFc cl Hcl). apply andb_true_iff in CFc as [A B]. auto. }
-    destruct (sim_create im p IMG SMALL c e st sp v tn cls next lc code lc' pc R (lin_nodup _ _ _ LCn) CS CA LA NHL NE CFn CO STAT)
+      unfold clauses_cf in CFc. rewrite forallb_forall in CFc. specialize (CFc cl Hcl). apply andb_true_iff in CFc as [A B].
+      unfold clauses_lits in SLc. rewrite forallb_forall in SLc. specialize (SLc cl Hcl). repeat split; auto. }
+    destruct (sim_create im p IMG SMALL c e st sp v tn cls next lc code lc' pc R (lin_nodup _ _ _ LCn) CS CA LA NHL NE CO STAT)
       as (c12 & c3 & lc3 & rest & s' & -> & NX & E & R' & FE).
     apply code_at_app in CA as [CA1 CA2]. apply code_at_app in CA2 as [CA2 _].
     apply labels_at_nh_app in LA as [_ LA2]. apply labels_at_nh_app in LA2 as [LA2 _].
-    eapply exec_to_finishes; [apply (exec_straight_exec_to im _ pc st s' CA1 E)|].
+    eapply exec_to_finishes; [apply (run_straight_exec_to im _ pc st s' CA1 E)|].
     eapply (IH next (c ++ [mkb v Cns (Decl tn)]) _ ot s'); eauto.
     + eapply frame_eq_outer; eauto.
     + destruct FE as (_ & O & _). congruence.
   - (* Invoke *)
-    destruct (invoke_progress im p c e st sp v tag t args R LC) as (e0 & x & tn & cls & cl & e1 & SL & IDX & FC & BD).
-    rewrite SL, IDX, FC, BD in G |- *.
-    destruct (sim_invoke im p ENC c e st sp v tag t args code lc lc' pc e0 x tn cls [] cl e1 R SL IDX FC BD LC CS CA)
-      as (pcb & lcb & cb & lcb' & s' & X & CSb & CAb & LAb & LCb & CFb & CXb & R' & FE).
-    eapply exec_to_finishes; [exact X|].
+    destruct (invoke_progress im p c e st sp v tag t args R LC) as (e0 & x & tn & cls & cl & e1 & SPL & IDX & FC & BD).
+    rewrite SPL, IDX, FC, BD in G |- *.
+    destruct (sim_invoke im p c e st sp v tag t args code lc lc' pc e0 x tn cls [] cl e1 R SPL IDX FC BD LC CS CA)
+      as (i & pcb & lcb & cb & lcb' & s' & X & TR & CSb & CAb & LAb & (LCb & CFb & CXb & SLb) & R' & FE).
+    eapply exec_to_finishes; [exact X|]. apply TR.
     eapply (IH (cl_body cl) (cl_ctx cl) (e1 ++ []) ot s'); eauto.
     + eapply frame_eq_outer; eauto.
     + destruct FE as (_ & O & _). congruence.
   - (* Literal *)
+    cbn [stmt_lits] in SL. apply andb_true_iff in SL as [SLn SL].
     cbn [lin_check] in LC. apply andb_true_iff in LC as [_ LC].
     destruct (cs_literal _ _ _ _ _ _ _ _ CS) as (tv & c2 & TV & NX & ->).
-    destruct (sim_literal im CLO c e st sp n v tv R (lin_nodup _ _ _ LC) TV) as (s' & E & R' & FE).
+    destruct (sim_literal im CLO c e st sp n v tv R (lin_nodup _ _ _ LC) (proj1 (lit_i64_in64 n) SLn) TV) as (s' & E & R' & FE).
     apply code_at_app in CA as [CA1 CA2]. apply labels_at_nh_app in LA as [_ LA2].
-    eapply exec_to_finishes; [apply (exec_straight_exec_to im _ pc st s' CA1 E)|].
+    eapply exec_to_finishes; [apply (run_straight_exec_to im _ pc st s' CA1 E)|].
     eapply (IH next (c ++ [mkb v Ext I64]) _ ot s'); eauto.
     + eapply frame_eq_outer; eauto.
     + destruct FE as (_ & O & _). congruence.
   - (* Op *)
+    cbn [stmt_lits] in SL.
     cbn [lin_check] in LC. apply andb_true_iff in LC as [_ LC]. apply andb_true_iff in LC as [LCo LC].
     apply andb_true_iff in LCo as [HA HB].
     destruct (has_ext_lookup_int CLO c e st sp a R HA) as (x & LA1).
@@ -136,25 +137,26 @@ Proof.
     apply code_at_app in CA as [CA1 CA2]. apply labels_at_nh_app in LA as [_ LA2].
     destruct (eval_op op x y) as [z|w] eqn:EV.
     + destruct (sim_op im CLO c e st sp a op b v x y z tv ta tb R (lin_nodup _ _ _ LC) LA1 LB1 EV TV TA TB) as (s' & E & R' & FE).
-      eapply exec_to_finishes; [apply (exec_straight_exec_to im _ pc st s' CA1 E)|].
+      eapply exec_to_finishes; [apply (run_straight_exec_to im _ pc st s' CA1 E)|].
       eapply (IH next (c ++ [mkb v Ext I64]) _ ot s'); eauto.
       * eapply frame_eq_outer; eauto.
       * destruct FE as (_ & O & _). congruence.
     + destruct (sim_op_undef im CLO c e st sp a op b v x y w tv ta tb R (lin_nodup _ _ _ LC) LA1 LB1 EV TV TA TB) as (s' & E & O).
       rewrite <- OUT, <- O. eapply exec_undef_finishes; eauto.
   - (* PrintI64 *)
+    cbn [stmt_lits] in SL.
     cbn [lin_check] in LC. apply andb_true_iff in LC as [_ LC]. apply andb_true_iff in LC as [HV LC].
     destruct (has_ext_lookup_int CLO c e st sp v R HV) as (z & LV).
     rewrite LV in G |- *.
     destruct (cs_print _ _ _ _ _ _ _ _ CS) as (tv & c2 & TV & NX & ->).
     destruct (sim_print im CLO c e st sp nl v z tv R LV TV) as (s' & E & R' & O & AE).
     apply code_at_app in CA as [CA1 CA2]. apply labels_at_nh_app in LA as [_ LA2].
-    eapply exec_to_finishes; [apply (exec_straight_exec_to im _ pc st s' CA1 E)|].
+    eapply exec_to_finishes; [apply (run_straight_exec_to im _ pc st s' CA1 E)|].
     eapply (IH next c e ((nl, z) :: ot) s'); eauto.
     + eapply above_eq_outer; eauto.
     + congruence.
   - (* IfC *)
-    cbn [stmt_cf] in SI. apply andb_true_iff in SI as [SI1 SI2].
+    cbn [stmt_cf] in SI. apply andb_true_iff in SI as [SI1 SI2]. cbn [stmt_lits] in SL. apply andb_true_iff in SL as [SL1 SL2].
     cbn [lin_check] in LC. apply andb_true_iff in LC as [_ LC].
     apply andb_true_iff in LC as [LC LCe]. apply andb_true_iff in LC as [LCo LCt]. apply andb_true_iff in LCo as [HA HB].
     destruct (has_ext_lookup_int CLO c e st sp a R HA) as (x & LA1).
@@ -163,7 +165,7 @@ Proof.
     destruct LB1 as (y & LB1). rewrite LA1, LB1 in G |- *.
     destruct (sim_ifc im CLO c e st sp so a b x y (ptypes p) thenc elsec lc code lc' pc R LA1 LB1 CS CA LA)
       as (c1 & c2 & lc2 & c3 & s' & -> & EL & TH & X & R' & FE).
-    assert (OK' : outer_ok s' sp) by (eapply frame_eq_outer; eauto).
+    assert (OK' : outer_ok s') by (eapply frame_eq_outer; eauto).
     assert (O' : out s' = ot) by (destruct FE as (_ & O & _); congruence).
     eapply exec_to_finishes; [exact X|].
     apply code_at_app in CA as [_ CA]. apply code_at_app in CA as [CA2 CA]. apply code_at_app in CA as [_ CA3].
@@ -179,11 +181,11 @@ Proof.
     destruct (cs_exit _ _ _ _ _ _ CS) as (tv & TV & -> & _).
     destruct (sim_exit_mov im CLO c e st sp v z tv R LV TV) as (s' & E & RAX & F' & FE).
     apply code_at_app in CA as [CA1 CA2]. apply code_at_cons in CA2 as [CJ _].
-    destruct CLEAN as (pcc & FL & CAc).
-    eapply exec_to_finishes; [apply (exec_straight_exec_to im _ pc st s' CA1 E)|].
+    destruct CLEAN as (pcc & FL & EPI).
+    eapply exec_to_finishes; [apply (run_straight_exec_to im _ pc st s' CA1 E)|].
     eapply exec_to_finishes.
     { eapply exec_jump; [exact CJ|cbn [step]; unfold goto_label; rewrite FL; reflexivity|apply exec_refl]. }
     replace ot with (out s') by (destruct FE as (_ & O & _); congruence).
-    eapply epilogue_ok; eauto. eapply frame_eq_outer; eauto.
+    apply EPI; auto. eapply frame_eq_outer; eauto.
 Qed.
 End MainCf.
